@@ -7,7 +7,9 @@
 //
 // Case lines
 //   1 start end shape op        shape 0 TS<Int>, 1 TSS<Int>, 2 TSD<Int,TS<Int>>
-//                               op    0 if_then_else, 1 if_cmp
+//                               op    0 if_then_else, 1 if_cmp,
+//                                     3 if_then_else with the consumers inside a nested graph (nested_<>),
+//                                     4 if_then_else inside a nested graph, its result exported (no line 22)
 //   2 k t payload...            script of source k at time t:
 //                               k=0 selector (payload: one integer), k=1..3 targets, k=7 poke
 //                               TS payload: v ; TSS payload: +key add / -key remove (keys >= 1);
@@ -25,6 +27,7 @@
 #include <hgraph/types/graph_wiring.h>
 #include <hgraph/types/metadata/type_registry.h>
 #include <hgraph/types/static_node.h>
+#include <hgraph/types/subgraph_wiring.h>
 
 #include <algorithm>
 #include <map>
@@ -243,6 +246,30 @@ namespace
         }
     };
 
+    // the consumers INSIDE a nested graph: the dereferenced value crosses the boundary
+    template <typename S>
+    struct Below
+    {
+        static constexpr auto name = "hgv_below";
+        static void           compose(Wiring &w, Port<S> sel, Port<TS<Int>> poke)
+        {
+            wire<Cons0<S>>(w, sel);
+            wire<Cons1<S>>(w, sel, poke);
+            wire<Cons2<S>>(w, sel, poke);
+            wire<Cons3<S>>(w, sel);
+        }
+    };
+    // the selection INSIDE a nested graph, its result passed out
+    template <typename S>
+    struct Choose
+    {
+        static constexpr auto name = "hgv_choose";
+        static Port<S>        compose(Wiring &w, Port<TS<Bool>> cond, Port<S> a, Port<S> b)
+        {
+            return wire<stdlib::if_then_else>(w, cond, a, b).template as<S>();
+        }
+    };
+
     template <typename S>
     void wire_case(Wiring &w, std::int64_t op)
     {
@@ -258,7 +285,25 @@ namespace
             wire<Cons3<S>>(w, sel);
             wire<RefWatch<S>>(w, sel);
         };
-        if (op == 1)
+        if (op == 3)
+        {
+            // the consumers live INSIDE a nested graph: the dereferenced value crosses the boundary inwards
+            auto cond = wire<SrcBool>(w, Int{0});
+            auto sel  = wire<stdlib::if_then_else>(w, cond, a, b);
+            nested_<Below<S>>(w, sel.template as<S>(), poke);
+            wire<RefWatch<S>>(w, sel);
+        }
+        else if (op == 4)
+        {
+            // the selection lives INSIDE a nested graph, its dereferenced result is exported
+            auto cond = wire<SrcBool>(w, Int{0});
+            auto sel  = nested_<Choose<S>>(w, cond, a, b);
+            wire<Cons0<S>>(w, sel);
+            wire<Cons1<S>>(w, sel, poke);
+            wire<Cons2<S>>(w, sel, poke);
+            wire<Cons3<S>>(w, sel);
+        }
+        else if (op == 1)
         {
             auto c = wire<Src<S>>(w, Int{3});
             wire<Direct<S>>(w, c, Int{3});
